@@ -42,6 +42,19 @@ class PS3(xo.Struct):
     m = xo.Int16[%(mshape)s]
 
 
+class PU(xo.UnionRef):
+    _reftypes = [PS1, PS2]
+
+
+class PS4(xo.Struct):
+    u = PU
+    us = PU[2]
+    rs = xo.Ref[PS1][:]
+    g = xo.Float64[:, :]
+    t = xo.String[:]
+    w = xo.Int32[2:1, 2:0, :]
+
+
 class PH1(xo.HybridClass):
     _xofields = {"a": xo.Int64, "arr": xo.Float64[:]}
 
@@ -145,7 +158,7 @@ def run_all(tier, seed):
             try:
                 for _ in range(r.randrange(2, 7)):
                     b = r.choice(bufs)
-                    k = r.choice(["PS1", "PS2", "PS3", "arr", "arrd", "PH1", "PH2"])
+                    k = r.choice(["PS1", "PS2", "PS3", "PS4", "arr", "arrd", "PH1", "PH2"])
                     if k == "PS1":
                         objs.append(M.PS1(a=r.randint(-9, 9), b=1.5, _buffer=b))
                     elif k == "PS2":
@@ -155,6 +168,15 @@ def run_all(tier, seed):
                         nm = int(np.prod([int(x) for x in M.PS3.m.ftype._shape]))
                         objs.append(M.PS3(inner=ps2_args(r, extra), r=r.choice([tgt, None]), k=r.randint(-9, 9),
                                           m=np.arange(nm, dtype="i2").reshape(M.PS3.m.ftype._shape), _buffer=b))
+                    elif k == "PS4":
+                        t1 = M.PS1(a=r.randint(-9, 9), b=3.5, _buffer=b)
+                        t2 = M.PS2(_buffer=b, **ps2_args(r, extra))
+                        pick = lambda: r.choice([t1, t2, None, ("PS1", {"a": r.randint(-9, 9), "b": 0.5})])
+                        nrow = r.randrange(0, 3)
+                        nw = r.randrange(0, 3)
+                        objs.append(M.PS4(u=pick(), us=[pick(), pick()], rs=[r.choice([t1, None]) for _ in range(r.randrange(0, 3))],
+                                          g=np.arange(nrow * 2, dtype="f8").reshape(nrow, 2), t=[rs(r) for _ in range(r.randrange(0, 3))],
+                                          w=np.arange(4 * nw, dtype="i4").reshape(2, 2, nw), _buffer=b))
                     elif k == "arr":
                         objs.append(M.ArrNFloat64([float(r.randint(0, 9)) for _ in range(r.randrange(0, 5))], _buffer=b))
                     elif k == "arrd":
